@@ -85,7 +85,12 @@ def negotiate(run, rng, sup, order, cfg, sup_all):
             state['status_requests'] += 1
             if kind == 'close-before-reply':
                 return
-            io.send_frame(0x00, ref.encode_field('string', json.dumps(val)))
+            reply = val
+            if isinstance(val, dict) and val and rng.random() < 0.5:
+                reply = dict(val, description={'text': 'x' * rng.choice(
+                    (10, 300, 5000))})
+            io.send_frame(0x00, ref.encode_field('string', json.dumps(reply)),
+                          fragments=rng.choice((None, [1], [2, 50], [700])))
             io.half_close()
             try:
                 io.wait_eof(5.0)
@@ -123,6 +128,8 @@ def negotiate(run, rng, sup, order, cfg, sup_all):
                                   allowed_versions=allowed_arg,
                                   initial_version=default_arg, **kw)
         conn.options.address = cfg['host']
+        conn.vf_rng = rng
+        conn.vf_short_reads = rng.random() < 0.5   # replies arrive in pieces
         decoy = Decoy()
         try:
             conn.connect()
@@ -327,6 +334,8 @@ def plain_status(run, rng, cfg):
             rec.exits = 0
             conn.allowed_proto_versions = set(cfg['A'])
             run.count('status_queries.after_compressed_session')
+        conn.vf_rng = rng
+        conn.vf_short_reads = rng.random() < 0.5
         decoy = Decoy()
         log_mark = len(rec.log.events)
         with contextlib.redirect_stdout(out):
@@ -468,15 +477,22 @@ def run(run):
             others = [p for p in minecraft.SUPPORTED_PROTOCOL_VERSIONS
                       if p not in A] or [99999]
             v = {'protocol': rng.choice(others)}
-            if rng.random() < 0.5:
-                v['name'] = 'srv'
+            if rng.random() < 0.7:
+                # the name is free text: unknown, or the id of some *other*
+                # known version (proxies report such things); the error must
+                # still name the protocol number the server reported
+                v['name'] = rng.choice(('srv', '1.12.2', '14w04a', '1.8.9',
+                                        '1.18.1', 'BungeeCord 1.8.x-1.18.x'))
             beh = ('reply', {'version': v})
         elif bk == 'mismatch-known':
             beh = ('reply', {'version': {'name': 'old', 'protocol':
                                          rng.choice(known_unsup)}})
         elif bk == 'mismatch-unknown':
-            beh = ('reply', {'version': {'protocol': rng.choice(
-                (-1, 99999, 2 ** 31, 2 ** 31 - 1, 758, 46, 1 << 30))}})
+            v = {'protocol': rng.choice(
+                (-1, 99999, 2 ** 31, 2 ** 31 - 1, 758, 46, 1 << 30))}
+            if rng.random() < 0.5:
+                v['name'] = rng.choice(('1.12.2', '1.18.1', '21w44a'))
+            beh = ('reply', {'version': v})
         elif bk == 'no-version':
             beh = ('reply', rng.choice(({'description': 'x'},
                                         {'players': {}, 'x': 1})))
